@@ -46,7 +46,7 @@ claim("C05",
 claim("C04",
       "typestate over abstract paths of merger_iter_next (Fresh/Consumed/Refilled per head entry), sentinel rule on key length, decision tables of the comparator and heap sites",
       "Decides per path: a failed merge returns failure before any further consumption; every head entry is consumed exactly once before "
-      "its refill, a successful refill is re-sifted, success is returned only after consuming an entry; heads are folded iff keys are equal; the result pointer handed to the merge function is NULL at every call; "
+      "its refill, a successful refill is re-sifted, success is returned only after consuming an entry; heads are folded iff keys are equal and, with a merge function, an entry is emitted only after the heap ran dry or the next head differs; the result pointer handed to the merge function is NULL at every call; "
       "no branch depends on the length of the pending key (the empty key is legal); the comparator orders exhausted entries last, returns the "
       "key comparison unchanged and consults dupsort only for equal keys with (a.val,b.val); the three heap comparison sites keep a min-heap; "
       "the two writer-feeding loops add every yielded entry once and stop at the first refused add. Heap algorithm correctness and fold "
@@ -59,15 +59,15 @@ claim("C03",
       "Decides: wherever a freshly loaded block is stored into a reader iterator the cached offset is stored from the offset that selected it "
       "(directly or through a verified out-parameter), so the reuse shortcut of reader_iter_seek can never see a stale identity; seek past the "
       "end only marks the iterator invalid, failure is sticky, next advances iff not first; needs_index_seek equals its six-disjunct table; the "
-      "continue-from-current shortcut of block_iter_seek is taken only for sign(current,target)=LT inside the located run. The contract over "
+      "continue-from-current shortcut of block_iter_seek is taken only for sign(current,target)=LT inside the located run, and an exhausted block iterator carries restart_index = num_restarts so the shortcut cannot match it. The contract over "
       "all (position,target) histories is not decided.",
       "Trusts T-cmp rows 2,3,8,10; out-parameter coupling is verified inside the callee by path evaluation; loop bound 1.")
 
 claim("C02",
       "abstract path evaluation (decision tables) of reader_iter_next's per-kind predicate and of bytes_compare, constructor argument-identity table, accept sets of in-block search sites, type rule on char comparisons with a kept positive example",
       "Decides: GET returns iff sign(key,bound)=EQ, RANGE iff sign in {LT,EQ}, PREFIX iff len(bound)<=len(key) and the first len(bound) bytes are equal, "
-      "ITER never ends early, the switch covers every kind; each lookup constructor positions with and bounds by the right parameters and starts its iterator with first=true, valid=true; bytes_compare's "
-      "nine-case table (memcmp sign, else length relation; min length; operand order); no relational operator on plain/signed char bytes anywhere in the "
+      "ITER never ends early, the switch covers every kind; each lookup constructor positions with and bounds by the right parameters and starts its iterator with first=true, valid=true, and gives up (NULL) only when no block could be loaded; bytes_compare's "
+      "nine-case table (a path that compares no bytes still returns the sign of the length relation) (memcmp sign, else length relation; min length; operand order); no relational operator on plain/signed char bytes anywhere in the "
       "library; bisection/linear-scan accept sets; separator computed iff a block is cut, right before the flush. That index search plus block search "
       "land on the right entry for every table/query, and the separator arithmetic, are not decided.",
       "Trusts memcmp's unsigned-byte semantics, T-cmp rows 4-7,9,11,22, and that lookups reach the reader only through the constructor table.")
@@ -78,7 +78,7 @@ claim("C15",
       "Decides: every dispatcher has a case per constant routed to the T-comp pair with data arguments forwarded and the level forwarded where one exists; "
       "each compressor's capacity and allocation derive from the library's own bound function of the input size; every library result is tested with that "
       "library's predicate before success is reported (zero content size legal, both zstd sentinels excluded); lz4 prefix framing agrees across the three "
-      "siblings; levels reaching zlib/lz4hc/zstd are clamped into the legal interval on every path; failure exits free the output; when the inflate buffer grows zlib is told exactly the room that was added at the old end. The libraries' own "
+      "siblings; levels reaching zlib/lz4hc/zstd are clamped into the legal interval on every path; failure exits free the output; when the inflate buffer grows zlib is told exactly the room that was added at the old end; every realloc size is provably positive. The libraries' own "
       "round-trip behaviour on every buffer is not decided.",
       "Trusts T-comp/T-liberr (library contracts transcribed from their headers), that library calls write only through the pointers they are handed, "
       "and clang's constant evaluation of the zlib/zstd macros.")
@@ -87,7 +87,7 @@ claim("C19",
       "taint + dominating-guard rule over abstract paths of mtbl_reader_init_fd (sources: values decoded from mapped bytes; sinks: T-extent readers), loop-bound derivation for the varint decoder, decision tables of block_init/block_iter_init",
       "Decides: on every path of the open function each read of the mapping whose offset or length contains a file-derived quantity (trailer fields, "
       "fixed/varint decodes) is preceded by a comparison of an expression containing that quantity with a file-size-derived expression, continuing on "
-      "the in-bounds side (a 64-bit file-derived value compared only inside a sum needs an accompanying wrap check); the trailer read is preceded by size >= 512; the varint decoder touches at most 10/5 bytes (derived from its loop); "
+      "the in-bounds side (a 64-bit file-derived value compared only inside a sum needs an accompanying wrap check; a bound formed by subtracting constants from the file size needs the size established first); the trailer read is preceded by size >= 512; the varint decoder touches at most 10/5 bytes (derived from its loop); "
       "block_init marks every inconsistent restart layout empty and block_iter_init stops on blocks shorter than 8 bytes. Presence and dominance of the "
       "guards are decided, not the algebra of each inequality (overflow corner cases of the arithmetic are not decided).",
       "Trusts T-extent (which callee reads how many bytes), mmap/fstat contracts, and data-block lengths at get_block being outside this property's statement.")
@@ -124,7 +124,7 @@ claim("C14",
 
 claim("C07",
       "typestate over abstract paths of the two reload functions (handle generation: declared current => rebuilt or known current), guard/decision-table rules for reload vs. open iterators, counting-pair and reload-before-use rules, filter formula",
-      "Decides: the setfile is reloaded only with n_iters==0 established on the path and only from the two reload functions; n_iters is incremented once per iterator in "
+      "Decides: the setfile is reloaded only with n_iters==0 established on the path and only from the two reload functions; n_iters is incremented exactly on the paths that hand out a counted iterator, in "
       "the only wrapper all four source functions return through and decremented once by the registered free function, which then retries the reload; every source operation "
       "reloads before using the merger; the reload decision equals T-cmp 24 (pending or strictly more than the interval, never under open iterators, NEVER honoured only when "
       "nothing is pending) and the pending flag is cleared only after a reload; every return of mtbl_fileset_reload leaves the handle rebuilt or shown equal to the shared generation; a handle stores its generation only when its merger was rebuilt or shown equal to the shared "
@@ -135,7 +135,7 @@ claim("C07",
 claim("C17",
       "recomputation of the Castagnoli slicing tables compared with the 2048 initialiser constants in the AST; byte accounting of both implementations by abstract path evaluation and structural recognition of the slicing-by-8 combination",
       "Decides completely that all 2048 table constants equal the CRC-32C tables derived from polynomial 0x82F63B78 (thorough tier: also the byte-reversed big-endian tables). "
-      "Decides: the SSE4.2 main loop consumes 8 bytes at the cursor len/8 times and every tail case n consumes exactly n bytes at contiguous offsets chained through the running crc; "
+      "Decides: with the length fixed to each of 0..39 (0..199 thorough) the SSE4.2 routine consumes exactly that many bytes, in order, each step at the running offset with its own operand width, chained through the running crc (shape-independent: switch or cascade); "
       "the table-driven code is head (byte steps to alignment) / main (len/8 groups, table k serving byte 7-k, shifts 0/8/16/24) / tail (len&7 byte steps) with the standard byte step; "
       "both start at 0xFFFFFFFF and return the complement; the wrapper forwards (buf,size); only the two implementations and the trampoline are installed. The semantics of the "
       "crc32 instructions and the equality of the two implementations as functions are not decided - the pinned tests only ever run the SSE4.2 path on this host.",
@@ -147,7 +147,7 @@ claim("C09",
       "shared is the common prefix with the previous key; the restart array is u32le (u64le iff the entries region exceeds UINT32_MAX) followed by the u32le count, and the size estimate "
       "agrees with it; a framed block is varint64 length, 4-byte little-endian CRC32C, stored bytes, and the returned size is their sum; the checksum is taken over (data,len_data) of the "
       "same block after their last definition and nothing between compression and the file changes them; restart cadence and reset table; a block is cut iff estimate+15+len_key+len_val "
-      ">= block_size; the index entry carries the offset the block started at and pending_offset starts at the descriptor's offset and grows by the bytes written; trailer layout as in C10; every increment applied to separator bytes is guarded against wrap-around (the index key cannot drop below the block's last key that way). "
+      ">= block_size; the index entry carries the offset the block started at and pending_offset starts at the descriptor's offset and grows by the bytes written; trailer layout as in C10; every increment applied to separator bytes is guarded against wrap-around and a value computed from a multi-byte read is written back whole (the index key cannot drop below the block's last key that way). "
       "The bytes of real files (which need an independent decoder run on outputs) and the separator arithmetic are not decided.",
       "Trusts T-format (written from the LevelDB block format and mtbl's documentation), the varint/fixed codecs (C16 is not claimed), loop bound 1.")
 
